@@ -491,11 +491,12 @@ func runScript(s script) *result {
 	res.cleanup = func() {
 		close(peerCmd)
 		if !isClosed {
-			sut.CloseDataConnection(4001, "")
+			// (bounded: a connection whose close path is wedged must not wedge the harness - the verdict is already taken)
+			vh.Call(2*time.Second, func() { sut.CloseDataConnection(4001, "") })
 		}
 		_ = fc.Conn.Close()
-		peerDone.Wait()
-		srv.Close()
+		vh.Call(3*time.Second, func() { peerDone.Wait() })
+		vh.Call(3*time.Second, func() { srv.Close() })
 	}
 	return res
 }
